@@ -212,17 +212,20 @@ def check_decode_and_errors(ctx, c_app, deep):
                    ('4.8.8 Color Code', (2, 2), 'BP-OSD'), ('XCube', (2, 2, 2), 'XCube Matching')]
     for name, size, dec in combos:
         klass = G.codes[name]
-        for em_name in (['Depolarizing', 'Pure Z'] if deep else ['Depolarizing']):
-            for dn in ['None'] + list(klass.deformation_names)[:1]:
+        dnames = list(klass.deformation_names)[:1]
+        # code deformation and noise deformation are independent menu entries
+        pairs = [('None', 'None')] + [(d, d) for d in dnames] + [(d, 'None') for d in dnames] + [('None', d) for d in dnames]
+        for em_name in (['Depolarizing', 'Pure Z', 'Pure X'] if deep else ['Depolarizing', 'Pure Z']):
+            for dn, ndn in pairs:
                 n += 1
                 try:
                     code = K.build(klass.__name__, size, None if dn == 'None' else (dn, {}))
                     rx, ry, rz = G.noise_directions[em_name]
-                    em = PauliErrorModel(rx, ry, rz, None if dn == 'None' else dn)
+                    em = PauliErrorModel(rx, ry, rz, None if ndn == 'None' else ndn)
                     e = em.generate(code, 0.1, rng=rng)
                     syn = code.measure_syndrome(e)
                     pl = payload(name, size, dn, False, syndrome=[int(x) for x in syn], p=0.1,
-                                 noise_deformation_name=dn, max_bp_iter=10, alpha=0.4, beta=0,
+                                 noise_deformation_name=ndn, max_bp_iter=10, alpha=0.4, beta=0,
                                  decoder=dec, error_model=em_name)
                     kwargs = {}
                     if dec in ('BP-OSD', 'MBP'):
@@ -257,7 +260,7 @@ def check_decode_and_errors(ctx, c_app, deep):
                     msg = f'raised {type(ex).__name__}: {ex}'
                 if msg:
                     fails.append({'input': {'kind': 'decode', 'code_name': name, 'size': list(size), 'decoder': dec,
-                                            'error_model': em_name, 'deformation': dn},
+                                            'error_model': em_name, 'deformation': dn, 'noise_deformation': ndn},
                                   'observed': msg, 'match': {'kind': 'decode', 'code_name': name, 'decoder': dec}})
     return fails, n
 
